@@ -717,10 +717,7 @@ loop:
 				obs = append(obs, Ints(0))
 			}
 		case OpPass:
-			n := op.At(1).Int64()
-			if n < 0 {
-				n = 0
-			}
+			n := op.At(1).Int64() // negative: the clock reading goes backwards
 			x.d.Pass(n)
 			x.behind += n
 			obs = append(obs, List())
@@ -729,7 +726,10 @@ loop:
 				obs = append(obs, Ints(3))
 				break loop
 			}
-			limit := 3*time.Second + time.Duration(x.behind>>20)*200*time.Millisecond
+			limit := 3 * time.Second
+			if x.behind > 0 {
+				limit += time.Duration(x.behind>>20) * 200 * time.Millisecond
+			}
 			x.behind = 0
 			panicked, stalled, ords := TickDrainLimit(x.d, limit)
 			l := []Sx{Int(0)}
